@@ -137,7 +137,7 @@ def apply_op(rp, s, kind, op):
 
 
 def gen_script(rng, kind):
-    npil = rng.randint(1, 4)
+    npil = rng.randint(1, 5)
     ops, uid = [], 0
     added, removed = set(), set()
     fwd_guess = {}
@@ -145,13 +145,17 @@ def gen_script(rng, kind):
         r = rng.random()
         if r < 0.22:
             cand = [p for p in range(npil) if p not in added] or list(range(npil))
-            pids = rng.sample(cand, rng.randint(1, min(2, len(cand))))
+            pids = rng.sample(cand, rng.randint(1, min(3, len(cand))))
             if rng.random() < 0.05: pids = [rng.randrange(npil)]           # maybe already added
             ops.append({'op': 'add', 'pids': pids, 'cores': [rng.choice([1, 2, 4, 8]) for _ in pids],
                         'stale': rng.choice([0, 0, 0, 1, 2, 4])})
             added |= set(pids); removed -= set(pids)
         elif r < 0.32 and added:
-            pids = rng.sample(sorted(added), 1)
+            # one command may name several pilots (often neighbours in the order they were added)
+            k = rng.choice([1, 1, 2, 2, 3])
+            sa = sorted(added)
+            i0 = rng.randrange(len(sa))
+            pids = sa[i0:i0 + k] if rng.random() < 0.6 else rng.sample(sa, min(k, len(sa)))
             if rng.random() < 0.1: pids = [rng.randrange(npil)]
             ops.append({'op': 'remove', 'pids': pids})
             added -= set(pids); removed |= set(pids)
